@@ -394,6 +394,30 @@ fn recipes_case(ctx: &mut Ctx, conv: &Converter, recipes: &[ScaledRecipe], texts
         };
         ctx.case(format!("gr ingredients {}", spec_recipe(r)), grouped.iter().map(|(i, g)| format!("{i}:{}", render_group(g))).collect::<Vec<_>>().join(" ## "),
             !grouped.is_empty(), input.clone());
+        // the folded scaling outcome of every definition (model: foldOutcome, Num/IngListMore.lean)
+        // (second pass: the same recipe read back from JSON with some outcomes rewritten to `error` / `fixed`, so that every arm of the fold is reached)
+        let rewritten: Option<ScaledRecipe> = r.scaled_data().and_then(|_| serde_json::to_value(r).ok()).and_then(|mut j| {
+            let a = j.get_mut("data")?.get_mut("ingredients")?.as_array_mut()?;
+            let n = a.len();
+            for (k, o) in a.iter_mut().enumerate() { match (k + n) % 4 { 0 => *o = serde_json::Value::String("error".into()), 1 => *o = serde_json::Value::String("fixed".into()), _ => {} } }
+            serde_json::from_value(j).ok()
+        });
+        for r in std::iter::once(r).chain(rewritten.iter()) {
+        if let Some(data) = r.scaled_data() {
+            let name = |o: &cooklang::scale::ScaleOutcome| match o { cooklang::scale::ScaleOutcome::Scaled => "scaled", cooklang::scale::ScaleOutcome::Fixed => "fixed", cooklang::scale::ScaleOutcome::NoQuantity => "noQuantity", cooklang::scale::ScaleOutcome::Error(_) => "error" };
+            if let Ok(gs) = guarded(|| r.group_ingredients(conv).into_iter().map(|g| (g.index, g.outcome.as_ref().map(name))).collect::<Vec<_>>()) {
+                for (index, o) in gs {
+                    let Some(o) = o else { continue };
+                    let refs = r.ingredients[index].relation.referenced_from();
+                    let mut toks: Vec<String> = vec!["gr".into(), "outcome".into(), index.to_string(), refs.len().to_string()];
+                    toks.extend(refs.iter().map(|x| x.to_string()));
+                    toks.extend(data.ingredients.iter().map(|o| name(o).to_string()));
+                    ctx.count(&format!("grouped-outcome:{o}{}", if refs.is_empty() { "" } else { ":with-references" }));
+                    ctx.case(toks.join(" "), o.to_string(), !refs.is_empty(), input.clone());
+                }
+            }
+        }
+        }
         // definitions, in recipe order
         let defs: Vec<usize> = (0..r.ingredients.len()).filter(|&j| r.ingredients[j].relation.is_definition()).collect();
         if grouped.iter().map(|g| g.0).collect::<Vec<_>>() != defs {
@@ -448,6 +472,7 @@ fn recipes_case(ctx: &mut Ctx, conv: &Converter, recipes: &[ScaledRecipe], texts
             Err(p) => ctx.oracle_fail(input.clone(), format!("from_recipe: panic {p}"), panic_signature(&p)),
             Ok(l2) => {
                 ctx.count("list:from_recipe");
+                ctx.case(format!("gr fromrecipe {}", spec_recipe(&recipes[0])), render_list(&l2), !l2.is_empty(), input.clone());
                 let got2: Vec<&String> = l2.iter().map(|(n, _)| n).collect();
                 if got2 != want_names { ctx.oracle_fail(input.clone(), format!("from_recipe lists {got2:?}; the listed definitions are {want_names:?}"), "c10:listed-names".into()); }
                 for (name, g) in l2.iter() {
